@@ -444,6 +444,70 @@ fn check_vtree(t: &VT, evals: &mut u64) -> Option<(String, String)> {
     None
 }
 
+/// query sequences on fresh managers: every ordered pair (every triple for <= 3 leaves) of queries from
+/// {lca of two leaves, is_prime_var of two leaves}, each sequence on a manager of its own - the nested
+/// loops of check_vtree ask every pair low-index-first before high-index-first on ONE manager, which is
+/// exactly the order in which a manager that remembers answers is right
+fn check_vtree_queries(t: &VT, evals: &mut u64) -> Option<(String, String)> {
+    let sh = shape_of(t);
+    let leaves: Vec<(usize, usize)> = sh.nodes.iter().enumerate().filter_map(|(i, nd)| if let VT::Leaf(v) = nd { Some((i, *v)) } else { None }).collect();
+    let n = leaves.len();
+    if n < 2 {
+        return None;
+    }
+    // query = (kind, leaf a, leaf b)
+    let mut qs: Vec<(u8, usize, usize)> = Vec::new();
+    for a in 0..n {
+        for b in 0..n {
+            qs.push((0, a, b));
+            if a != b {
+                qs.push((1, a, b));
+            }
+        }
+    }
+    let len = if n <= 3 { 3 } else { 2 };
+    let total = qs.len().pow(len as u32);
+    for code in 0..total {
+        let mut c = code;
+        let mut seq = Vec::new();
+        for _ in 0..len {
+            seq.push(qs[c % qs.len()]);
+            c /= qs.len();
+        }
+        let man = match guarded(|| VTreeManager::new(t.to_rsdd())) {
+            Ok(m) => m,
+            Err(p) => return Some(("vtree-manager-panic".into(), format!("VTreeManager::new panicked: {}", p))),
+        };
+        for (step, &(kind, a, b)) in seq.iter().enumerate() {
+            let (na, va) = leaves[a];
+            let (nb, vb) = leaves[b];
+            *evals += 1;
+            let r = guarded(|| {
+                if kind == 0 {
+                    let (ia, ib) = (man.var_index(VarLabel::new(va as u64)), man.var_index(VarLabel::new(vb as u64)));
+                    Ok(man.lca(ia, ib).value())
+                } else {
+                    Err(man.is_prime_var(VarLabel::new(va as u64), VarLabel::new(vb as u64)))
+                }
+            });
+            match r {
+                Ok(Ok(got)) => {
+                    if got != sh.lca(na, nb) {
+                        return Some(("lca".into(), format!("fresh manager, query {} of {:?} (0 = lca, 1 = is_prime_var; leaves by position): lca of the leaves x{} and x{} = {}, the shape gives {}", step + 1, seq, va, vb, got, sh.lca(na, nb))));
+                    }
+                }
+                Ok(Err(got)) => {
+                    if got != sh.is_prime(na, nb) {
+                        return Some(("prime-relation".into(), format!("fresh manager, query {} of {:?}: is_prime_var(x{}, x{}) = {}, the shape says {}", step + 1, seq, va, vb, got, sh.is_prime(na, nb))));
+                    }
+                }
+                Err(p) => return Some(("lca".into(), format!("fresh manager, query {} of {:?} panicked: {}", step + 1, seq, p))),
+            }
+        }
+    }
+    None
+}
+
 /// elimination orders: all permutations for small variable sets; identity, reversed and
 /// rotated-by-half for wide ones
 fn elims_for(nv: usize) -> Vec<Vec<usize>> {
@@ -585,6 +649,12 @@ pub fn run(ctx: &Ctx) -> Report {
             if let Some((k, w)) = check_vtree(t, &mut ev) {
                 r.violation(format!("wellformed:{}", k), format!("vtree {}: {}", t.show(), w), json!({"kind": "vtree", "vtree": t.show()}));
             }
+            if t.leaves().len() <= 4 && !crate::core::disabled("vtq") {
+                if let Some((k, w)) = check_vtree_queries(t, &mut ev) {
+                    r.violation(format!("wellformed:{}", k), format!("vtree {}: {}", t.show(), w), json!({"kind": "vtree", "vtree": t.show()}));
+                }
+                r.add_extra("vtrees_with_query_sequences_on_fresh_managers", 1);
+            }
             r.evaluations += ev;
         }
         r
@@ -619,7 +689,7 @@ pub fn replay(_ctx: &Ctx, case: &Value) -> Report {
         Some("vtree") => {
             if let Some(t) = VT::parse(case["vtree"].as_str().unwrap_or("")) {
                 let mut ev = 0;
-                if let Some((k, w)) = check_vtree(&t, &mut ev) {
+                if let Some((k, w)) = check_vtree(&t, &mut ev).or_else(|| if t.leaves().len() <= 4 { check_vtree_queries(&t, &mut ev) } else { None }) {
                     rep.violation(format!("wellformed:{}", k), w, case.clone());
                 }
             }
